@@ -1385,12 +1385,22 @@ def run(repo: Repo) -> Result:
         "the symbolic executor over-approximates path conditions (unknown constructs become free atoms / havoc)",
     ]
     ctx = Ctx(repo)
-    roles = rule_roles(ctx, res)
-    run_rule_pipeline(ctx, res, roles)
-    run_side_guard(ctx, res, roles)
-    run_layer_rule(ctx, res)
-    run_diagram_rule(ctx, res)
-    run_entry_point(ctx, res)
-    run_r3_r4(ctx, res)
-    run_lookups(ctx, res)
+
+    def contained(rule: str, what: str, fn, *args):
+        """A symbolic run that gives up (recursion depth, path condition too large) leaves the obligations of this group
+        undecided - the other groups are still decided."""
+        try:
+            return fn(ctx, res, *args)
+        except AnalysisError as e:
+            res.undecide(rule, f"src::{what}", f"the symbolic run gave up: {e}", "")
+            return None
+
+    roles = contained("C13.R7", "Rule fluent API roles", rule_roles)
+    contained("C13.R2", "Rule.assert_applies pipeline", run_rule_pipeline, roles)
+    contained("C13.R2", "Rule side guard", run_side_guard, roles)
+    contained("C13.R2", "LayerRule", run_layer_rule)
+    contained("C13.R2", "DiagramRule", run_diagram_rule)
+    contained("C13.R2", "get_evaluable_architecture", run_entry_point)
+    contained("C13.R3", "raises and handlers", run_r3_r4)
+    contained("C13.R6", "graph lookups", run_lookups)
     return res
